@@ -31,6 +31,7 @@ class Alphabet:
         self.adts = adts or {}
         self.bools = set(bools or [])
         self.retval = retval
+        self.stmt_fn = None  # optional: (body, bb, stmt index, stmt) -> label for statement-level events (emitted in order)
         self.upvar_bools = False  # label SwitchInt on a captured bool: bool:upvar<i>=0|1
         self.drop_types = []  # [(substring of the dropped place's type, label)] -> event drop:<label> at Drop terminators
         self.adt_fn = None  # optional: adt def path -> short name (for ADTs recognised by shape, e.g. select!'s private enum)
@@ -124,15 +125,18 @@ def build(body: Body, alpha: Alphabet, fx=None, depth=0, _prefix=(), _sinks=None
         cur = node(bi, 0)
         n.nodes.add(cur)
         # statement events
-        if retval:
+        if retval or alpha.stmt_fn:
             for si, st in enumerate(blk["s"]):
-                if st["k"] == "assign" and st["p"] == [0]:
-                    lab = retval_label(body, st["r"])
-                    if lab:
-                        nxt = node(bi, pos + 1)
-                        n.add(cur, lab, nxt, st.get("l"))
-                        cur = nxt
-                        pos += 1
+                lab = None
+                if retval and st["k"] == "assign" and st["p"] == [0]:
+                    lab = retval_label(body, st["r"], alpha)
+                if lab is None and alpha.stmt_fn and st["k"] == "assign":
+                    lab = alpha.stmt_fn(body, bi, si, st)
+                if lab:
+                    nxt = node(bi, pos + 1)
+                    n.add(cur, lab, nxt, st.get("l"))
+                    cur = nxt
+                    pos += 1
         t = blk["t"]
         k = t["k"]
         loc = t.get("l")
@@ -277,7 +281,7 @@ def _interesting(cb, alpha):
     return cache[cb.name]
 
 
-def retval_label(body, r):
+def retval_label(body, r, alpha=None):
     if r["k"] == "agg" and r.get("ak") == "adt" and r.get("variant"):
         return "retval:" + r["variant"]
     if r["k"] == "use":
@@ -293,10 +297,19 @@ def retval_label(body, r):
                 vs.add(None)
         if len(vs) == 1 and None not in vs:
             return "retval:" + next(iter(vs))
+        # a result handed back unchanged: name the labelled call / await that produced it
+        if alpha is not None and r["o"].get("k") in ("move", "copy"):
+            srcs = _src_labels(body, body.origins(r["o"]["p"]), alpha)
+            if len(srcs) == 1:
+                return "retval:move@" + next(iter(srcs))
         return "retval:move"
     if r["k"] == "agg":
         return "retval:agg"
     return None
+
+
+# Result / Option adapters that keep the Ok / Err (Some / None) outcome of their receiver
+OUTCOME_PRESERVING = {"core::result::{impl#0}::map_err", "core::result::{impl#0}::map", "core::result::{impl#0}::inspect", "core::result::{impl#0}::inspect_err"}
 
 
 def _src_labels(body, origs, alpha, depth=0):
@@ -311,7 +324,8 @@ def _src_labels(body, origs, alpha, depth=0):
         elif o.kind == "call":
             ct = body.call_at(o)
             callee = ct.get("callee") or ""
-            if callee.endswith("Try::branch") and depth < 3:
+            if (callee.endswith("Try::branch") or callee in OUTCOME_PRESERVING) and depth < 4 and not alpha.call_label(ct):
+                # `?` and map_err keep the Ok / Err outcome of the value they are applied to
                 out |= _src_labels(body, body.origins(ct["args"][0]), alpha, depth + 1)
             else:
                 lab = alpha.call_label(ct)
